@@ -218,7 +218,7 @@ def sanitize(s):
 def child_env():
     e = dict(os.environ)
     e["TZ"] = "UTC"; e["LC_ALL"] = "C"
-    e["ASAN_OPTIONS"] = "detect_leaks=0:abort_on_error=0:halt_on_error=1:allocator_may_return_null=1:detect_stack_use_after_return=0"
+    e["ASAN_OPTIONS"] = "detect_leaks=0:abort_on_error=0:halt_on_error=1:exitcode=77:allocator_may_return_null=1:detect_stack_use_after_return=0"
     return e
 
 def run_shards(exes, ck, tier, jobs, deadline, outdir, replay=None):
@@ -347,7 +347,7 @@ def main():
         # a crashed shard (sanitizer abort, signal) is a failure of the run; the harness turns expected
         # faults into violations itself, so this is reported as an infrastructure error with its log.
         sys.stderr.write("HARNESS ERROR in %s:\n%s\n" % (a.id, "\n".join(errors)))
-        crash = any(("AddressSanitizer" in e or "exit -11" in e or "exit -6" in e) for e in errors)
+        crash = any(("AddressSanitizer" in e or "exit -11" in e or "exit -6" in e or "exit 77" in e) for e in errors)
         if crash:
             rpath = os.path.join(VERIF, "replays", a.id, "crash.json")
             os.makedirs(os.path.dirname(rpath), exist_ok=True)
